@@ -284,7 +284,9 @@ func init() {
 		Rule: "seq: random op sequences (1..40 ops, plus bursts of >300 failures) over 0..4 fake BalancingClients with scripted outcomes and pending counts: " +
 			"DoDeadline (public API, healthy/unhealthy via error or HealthCheck), get, calls on a fixed client, timer firings (decPenalty), AddClient, RemoveClients, pending changes; " +
 			"exhaustive (thorough): all sequences of <=5 ops over a 10-op alphabet on 2 clients; conc: G goroutines x K failing calls released together on one client (settled state); " +
-			"timer: one real 3 s penalty timer. non-trivial = >=2 routed calls and >=1 failure (seq) / contention above maxPenalty (conc); distinct = distinct input",
+			"timer: one real 3 s penalty timer; boundary: 294..301 sequential failures through the public API, then 2..8 failing calls parked together inside LBClient.HealthCheck (gate) so that they overlap exactly at maxPenalty, " +
+			"settled accounting checked at once (every failing call either armed a timer or was counted in total; penalty = timers armed), then the real timers run out: penalty must reach exactly 0, never exceed maxPenalty, and the client must be chosen again. non-trivial = >=2 routed calls and >=1 failure (seq) / contention above maxPenalty (conc); distinct = distinct input",
+		Parallel:   true,
 		Exhaustive: func(t string) bool { return t == "thorough" },
 		Assumptions: []string{
 			"LBClient.Clients is non-empty at the first call (documented precondition; the empty case panics by design and is modelled and checked as such)",
@@ -392,6 +394,21 @@ func init() {
 						}
 						return Ok()
 					}}
+			case "boundary":
+				if len(a) < 2 {
+					return nil
+				}
+				base, _ := strconv.Atoi(string(a[0]))
+				g, _ := strconv.Atoi(string(a[1]))
+				if base < 0 || base > 400 || g < 1 || g > 16 {
+					return nil
+				}
+				for try := 0; try < 3; try++ {
+					if c := c40Boundary(base, g); c != nil {
+						return c
+					}
+				}
+				return nil
 			case "timer":
 				lb := &fasthttp.LBClient{Clients: []fasthttp.BalancingClient{&c40FakeConc{}}}
 				var req fasthttp.Request
@@ -430,6 +447,17 @@ func init() {
 		},
 		Gen: func(r *Rand, tier string, emit func(string, ...[]byte)) {
 			emit("timer")
+			// overlapping failing calls parked inside HealthCheck exactly at the cap, then the real timers run out
+			for _, bg := range [][2]int{{299, 3}, {298, 2}, {298, 4}, {300, 2}, {297, 3}, {299, 2}} {
+				emit("boundary", N(bg[0]), N(bg[1]))
+			}
+			if tier == "thorough" {
+				for base := 294; base <= 301; base++ {
+					for g := 2; g <= 8; g += 3 {
+						emit("boundary", N(base), N(g))
+					}
+				}
+			}
 			n := 4000
 			if tier == "thorough" {
 				n = 40000
@@ -543,3 +571,151 @@ func (*c40FakeConc) DoDeadline(_ *fasthttp.Request, _ *fasthttp.Response, _ time
 	return errC40Fake
 }
 func (*c40FakeConc) PendingRequests() int { return 0 }
+
+// c40GateClient fails while fail is set and reports a settable number of pending requests.
+type c40GateClient struct {
+	fail    atomic.Bool
+	pending atomic.Int64
+	calls   atomic.Int64
+}
+
+func (c *c40GateClient) DoDeadline(_ *fasthttp.Request, _ *fasthttp.Response, _ time.Time) error {
+	c.calls.Add(1)
+	if c.fail.Load() {
+		return errC40Fake
+	}
+	return nil
+}
+func (c *c40GateClient) PendingRequests() int { return int(c.pending.Load()) }
+
+// c40Boundary: `base` sequential failures on client A through the public API, then g failing calls that are all parked
+// inside the HealthCheck callback at the same time (so they overlap at the penalty cap), then the real penalty timers
+// run out.  nil = the set-up took so long that timers may already have fired (retry).
+func c40Boundary(base, g int) *Case {
+	a, b := &c40GateClient{}, &c40GateClient{}
+	a.fail.Store(true)
+	b.pending.Store(1 << 40) // keep B unattractive while A is being penalised
+	var gateOn atomic.Bool
+	var inCheck atomic.Int32
+	gate := make(chan struct{})
+	lb := &fasthttp.LBClient{
+		Clients: []fasthttp.BalancingClient{a, b},
+		HealthCheck: func(_ *fasthttp.Request, _ *fasthttp.Response, err error) bool {
+			if gateOn.Load() {
+				inCheck.Add(1)
+				<-gate
+			}
+			return err == nil
+		},
+	}
+	do := func() error {
+		var req fasthttp.Request
+		var resp fasthttp.Response
+		return lb.DoDeadline(&req, &resp, time.Now().Add(time.Second))
+	}
+	t0 := time.Now()
+	for i := 0; i < base; i++ {
+		do()
+	}
+	var ca *fasthttp.VerifLBClient
+	for _, c := range fasthttp.VerifLBClients(lb) {
+		if fasthttp.VerifLBWrapped(c) == fasthttp.BalancingClient(a) {
+			ca = c
+		}
+	}
+	if ca == nil {
+		return nil
+	}
+	gateOn.Store(true)
+	var wg sync.WaitGroup
+	for i := 0; i < g; i++ {
+		wg.Add(1)
+		go func() { defer wg.Done(); do() }()
+	}
+	for inCheck.Load() != int32(g) {
+		if time.Since(t0) > fasthttp.VerifLBPenaltyDuration/2 {
+			gateOn.Store(false)
+			close(gate)
+			wg.Wait()
+			return nil
+		}
+		time.Sleep(100 * time.Microsecond)
+	}
+	penParked := fasthttp.VerifLBPenalty(ca)
+	gateOn.Store(false)
+	tOpen := time.Now()
+	close(gate)
+	wg.Wait()
+	lastFail := time.Now()
+	pen1 := int64(fasthttp.VerifLBPenalty(ca))
+	tot1 := int64(fasthttp.VerifLBTotal(ca))
+	if time.Since(t0) > fasthttp.VerifLBPenaltyDuration/2 {
+		return nil
+	}
+	calls := int64(base + g)
+	if a.calls.Load() != calls {
+		return nil // something was routed to B: not the scenario
+	}
+	armed := calls - tot1 // every unhealthy call either arms a timer or is counted in total
+	impl := fmt.Sprintf("%d %d", armed, pen1)
+	what := fmt.Sprintf("%d sequential failures, then %d failing calls overlapping inside HealthCheck (penalty %d while parked): settled penalty %d, total %d", base, g, penParked, pen1, tot1)
+	// nothing fails any more; wait for the real timers
+	a.fail.Store(false)
+	var maxSeen uint32
+	var zeroAt time.Duration = -1
+	limit := fasthttp.VerifLBPenaltyDuration + 20*time.Second
+	for time.Since(lastFail) < limit {
+		p := fasthttp.VerifLBPenalty(ca)
+		if p > maxSeen {
+			maxSeen = p
+		}
+		if p > fasthttp.VerifLBMaxPenalty {
+			break
+		}
+		if p == 0 {
+			if zeroAt < 0 {
+				zeroAt = time.Since(lastFail)
+			} else if time.Since(lastFail)-zeroAt > 700*time.Millisecond {
+				break // stayed at zero: every timer has fired
+			}
+		} else if zeroAt >= 0 {
+			zeroAt = -1
+		}
+		time.Sleep(2 * time.Millisecond)
+	}
+	finalPen := fasthttp.VerifLBPenalty(ca)
+	// A (0 pending, no penalty) against B (1 pending): A must be chosen again
+	b.pending.Store(1)
+	a.pending.Store(0)
+	chosenA := false
+	if _, c := fasthttp.VerifLBGet(lb); c == ca {
+		chosenA = true
+	}
+	return &Case{Lines: []string{Line("lbsettled", N(base+g))}, Impl: impl, Nontrivial: base+g > fasthttp.VerifLBMaxPenalty, Tags: []string{"boundary"},
+		Judge: func(rep []string) Verdict {
+			if pen1 > fasthttp.VerifLBMaxPenalty {
+				return Verdict{VSpec, "settled-penalty-over-max", what}
+			}
+			if pen1 != armed {
+				return Verdict{VSpec, "penalty-not-backed-by-timer", fmt.Sprintf("%s: %d calls were penalised (a decrement was scheduled for each) but the penalty stands at %d", what, armed, pen1)}
+			}
+			if maxSeen > fasthttp.VerifLBMaxPenalty || finalPen > fasthttp.VerifLBMaxPenalty {
+				return Verdict{VSpec, "penalty-underflow", fmt.Sprintf("%s; while the timers ran out the penalty was observed at %d (final %d): it went below zero and wrapped", what, maxSeen, finalPen)}
+			}
+			if finalPen != 0 || zeroAt < 0 {
+				return Verdict{VSpec, "penalty-not-cleared", fmt.Sprintf("%s; %v after the last failure the penalty is still %d", what, limit, finalPen)}
+			}
+			// a parked call that was penalised armed its timer after the gate opened: the penalty cannot be gone
+			// earlier than penaltyDuration after that moment
+			if penParked < fasthttp.VerifLBMaxPenalty && zeroAt+lastFail.Sub(tOpen) < fasthttp.VerifLBPenaltyDuration-20*time.Millisecond {
+				return Verdict{VSpec, "penalty-cleared-early", fmt.Sprintf("%s; penalty reached zero %v after the gate was opened", what, zeroAt+lastFail.Sub(tOpen))}
+			}
+			if !chosenA {
+				return Verdict{VSpec, "client-not-selectable-after-penalty", what + "; with 0 pending and its penalties expired the client is still passed over for one with 1 pending"}
+			}
+			if rep[0] != impl {
+				return Verdict{VCorr, "lb-settled", fmt.Sprintf("%s: impl (penalised, penalty) = %q, model %q", what, impl, rep[0])}
+			}
+			return Ok()
+		}}
+}
